@@ -224,6 +224,8 @@ class BaseFileLock(abc.ABC):
 
         self._decrement_lock_counter()
 
+        levels = 1  # Number of thread lock levels to drop
+
         if self._lock_counter == 0 or force:
             lid = id(self)
             fn = self._lock_file
@@ -234,11 +236,15 @@ class BaseFileLock(abc.ABC):
             except:  # noqa
                 _logger.exception("Failed to release lock %s on %s", lid, fn)
             else:
-                self._lock_counter = 0
                 _logger.info('Lock %s released on %s', lid, fn)
+            # The file lock is gone either way (the descriptor is
+            # closed), so a forced release drops every nesting level
+            levels += self._lock_counter
+            self._lock_counter = 0
 
         try:
-            self._thread_lock.release()
+            for _ in range(levels):
+                self._thread_lock.release()
         except RuntimeError:  # not reentrant and already unlocked
             pass
 
